@@ -119,6 +119,11 @@ class C09(fw.Prop):
             k = d["parser"]
             return fw.Case(f"hdlc parse {k} {fw.hx(data)}", lambda: parse_with(k, data), d.get("kind", "model"), d,
                            tags=("parse-" + d.get("tag", "other"),))
+        if op == "parse-seq":
+            k = d["parser"]
+            datas = [bytes.fromhex(x) for x in d["datas"]]
+            return fw.Case([f"hdlc parse {k} {fw.hx(x)}" for x in datas], lambda: [fw.guarded(lambda x=x: parse_with(k, x), ERR) for x in datas], "prop", d,
+                           tags=("parse-sequence",))
         if op == "fault":
             orig = bytes.fromhex(d["orig"])
             bad = bytes.fromhex(d["bad"])
@@ -183,6 +188,48 @@ class C09(fw.Prop):
                 # (the bytes are the specification's serialisation - checked by the "ser" case - so what the model of the
                 #  parser returns for them is, by C09_parse_serialize, the frame itself: a disagreement is a property failure)
                 yield mk({"op": "parse", "parser": kind, "data": data.hex(), "kind": "prop", "tag": "roundtrip"})
+        # more stations: reserved values (0x7E calling, 0x7F all-station, 0x3FFE/0x3FFF), addresses whose encoding contains a
+        # 0x7E byte, boundaries of the 1/2/4-byte forms, random ones - every kind, both directions
+        more = [(200, 126), (200, 127), (128, 126), (16383, 126), (126, 126), (127, 126), (200, 16382), (200, 16383), (1, 16382), (63, 17), (63, 0),
+                (8064, 300), (8100, 5), (191, 1), (200, 8064), (5, 8191), (1, 300), (1, 301), (127, 128), (128, 127), (128, None) if False else (128, 0)]
+        more += [(rng.randrange(16384), rng.randrange(16384)) for _ in range(40 if deep else 8)]
+        more += [(rng.randrange(128), rng.choice([None, rng.randrange(128)])) for _ in range(10 if deep else 3)]
+        for (lg, ph) in more:
+            for kind in KINDS:
+                c, sv = ("c", rng.choice([1, 16, 17, 127])), ("s", lg, ph)
+                c = (c[0], c[1], None)
+                dst, src = (sv, c) if kind in ("snrm", "disc") else (c, sv)
+                ssn, rsn, fin, seg = rng.randrange(8), rng.randrange(8), rng.randint(0, 1), rng.randint(0, 1)
+                payload = bytes(rng.getrandbits(8) for _ in range(rng.choice([0, 3]))) if kind in ("ua", "i", "ui") else b""
+                if kind != "i":
+                    ssn = 0
+                if kind not in ("i", "rr"):
+                    rsn = 0
+                yield mk({"op": "ser", "kind": kind, "dst": dst, "src": src, "ssn": ssn, "rsn": rsn, "final": fin, "seg": seg, "payload": payload.hex()})
+                try:
+                    data = self.impl_bytes(kind, dst, src, ssn, rsn, fin, seg, payload)
+                except Exception:
+                    continue
+                if kind != "snrm":
+                    yield mk({"op": "parse", "parser": kind, "data": data.hex(), "kind": "prop", "tag": "roundtrip-stations"})
+        # frames parsed one after the other whose address fields share their first bytes: each gets its own addresses
+        for kind in ("i", "rr", "ui", "ua", "disc"):
+            seqs = []
+            for (a, b) in (((1, 300), (1, 301)), ((200, 5), (200, 6)), ((200, 128), (200, 129)), ((16383, 16382), (16383, 16383))):
+                if kind == "disc":
+                    seqs.append([(("s",) + a, ("c", 16, None)), (("s",) + a, ("c", 17, None)), (("s",) + b, ("c", 17, None))])
+                else:
+                    seqs.append([(("c", 16, None), ("s",) + a), (("c", 16, None), ("s",) + b), (("c", 17, None), ("s",) + b), (("c", 16, None), ("s",) + a)])
+            for sq in seqs:
+                datas = []
+                for dst, src in sq:
+                    try:
+                        datas.append(self.impl_bytes(kind, dst, src, 0, 0, 1, 0, b"").hex())
+                    except Exception:
+                        datas = None
+                        break
+                if datas:
+                    yield mk({"op": "parse-seq", "parser": kind, "datas": datas})
         # re-used frame objects: every frame of a sample is also produced from an object first serialised as another frame
         # of the same kind
         by_kind = {}
